@@ -47,17 +47,29 @@ func NewDefault() *Config {
 
 // Writes the configuration to disk.
 func (c *Config) persist() error {
-	f, err := os.Create(configPath.Path)
+	// Write to a temporary file first: a failing write must not leave a truncated configuration behind
+	tmpPath := configPath.Path + ".tmp"
+	f, err := os.Create(tmpPath)
 	if err != nil {
-		slog.Error("Failed to create config file", "path", configPath.Path, "error", err)
-		return fmt.Errorf("%w: failed to open config file for writing '%s'", ErrConfigFileOpen, configPath.Path)
+		slog.Error("Failed to create config file", "path", tmpPath, "error", err)
+		return fmt.Errorf("%w: failed to open config file for writing '%s'", ErrConfigFileOpen, tmpPath)
 	}
-	defer f.Close()
 
 	enc := json.NewEncoder(f)
 	enc.SetIndent("", "  ") // Pretty print the JSON output
-	if err := enc.Encode(c); err != nil {
+	err = enc.Encode(c)
+	if closeErr := f.Close(); err == nil {
+		err = closeErr
+	}
+	if err != nil {
+		os.Remove(tmpPath)
 		slog.Error("Failed to encode config to JSON", "path", configPath.Path, "error", err)
+		return fmt.Errorf("%w: failed to write config to file '%s'", ErrConfigFileWrite, configPath.Path)
+	}
+
+	if err := os.Rename(tmpPath, configPath.Path); err != nil {
+		os.Remove(tmpPath)
+		slog.Error("Failed to move config file into place", "path", configPath.Path, "error", err)
 		return fmt.Errorf("%w: failed to write config to file '%s'", ErrConfigFileWrite, configPath.Path)
 	}
 
